@@ -167,5 +167,17 @@ Definition c19_run (input : list Z) : list Z :=
         end
       | _ => ERR_DECODE
       end
+  else if kind =? 8 then
+      (* every constructor route: OneOrSet try_from(Vec), new_set(OrderedSet), TryFrom<OrderedSet> [, new_one, From<T>]; OneOrMany from(Vec), from_iter [, From<T>, One] *)
+      match take_pairs r with
+      | Some (l, []) =>
+          let oo (x : option (oneorset el)) := match x with Some v => c19_oos_obs v | None => [0] end in
+          let viaset := match OS os_try_from_vec l with Some s => oos_new_set el s | None => None end in
+          oo (OS oos_try_from_vec l) ++ oo viaset ++ oo viaset
+          ++ (match l with [x] => c19_oos_obs (oos_new_one el x) ++ c19_oos_obs (oos_new_one el x) | _ => [] end)
+          ++ c19_oom_obs (oom_from_vec el l) ++ c19_oom_obs (oom_from_iter el l)
+          ++ (match l with [x] => c19_oom_obs (OMOne x) ++ c19_oom_obs (OMOne x) | _ => [] end)
+      | _ => ERR_DECODE
+      end
   else ERR_DECODE
   end.
